@@ -2,6 +2,7 @@
 # Build the whole framework offline from files on disk: the Lean theorem modules and native model drivers of every
 # property that has a check definition (checks/Cxx.py), and the Rust harness crates they use.
 set -u
+set -o pipefail
 cd "$(dirname "$0")/.."
 export CARGO_NET_OFFLINE=true
 rc=0
@@ -36,6 +37,20 @@ for c, ps in sorted(seen.items()):
     print(c + ":" + ",".join(sorted(ps)))
 PY
 )
+# Generated/*.lean must describe /repo before anything is compiled
+python3 - <<'PY' || rc=1
+import glob, importlib.util, os
+ready = set(open("checks/READY").read().split()) if os.path.exists("checks/READY") else None
+for p in sorted(glob.glob("checks/C*.py")):
+    if ready is not None and os.path.basename(p)[:-3] not in ready:
+        continue
+    spec = importlib.util.spec_from_file_location("m", p); m = importlib.util.module_from_spec(spec); spec.loader.exec_module(m)
+    if hasattr(m, "extract"):
+        params, problems = m.extract("/repo")
+        for q in problems:
+            print(f"[setup] {os.path.basename(p)}: extraction problem: {q}")
+PY
+[ -n "$targets" ] || { echo "[setup] no lake targets found"; exit 1; }
 echo "[setup] lake build $targets"
 (cd lean && lake build $targets) || rc=1
 for item in $crates; do
